@@ -127,6 +127,11 @@ def gen_case(rng, kind, subtype, patterns):
     ty -= lo * s
     els0 = list(els)
     els = [gg.transform(e, kind, s, tx, ty) for e in els]
+    if subtype == "int16" and rng.random() < 0.35 and allc and hi > lo:
+        # the whole int16 range: rings wider than half the type's range (areas stay exact in int64)
+        k_ = 65535 // (hi - lo)
+        els = [gg.transform(e, kind, k_, -32768 - lo * k_, -32768 - lo * k_) for e in els0]
+        s, tx, ty = k_, -32768 - lo * k_, -32768 - lo * k_
     down = 0
     if subtype == "float64" and rng.random() < 0.3:
         # exact dyadic down-scaling: tiny rings (areas down to ~1e-12) keep a definite orientation
